@@ -439,7 +439,54 @@ async fn run_case(case: &Case, keys: Arc<Vec<Vec<u8>>>, prop: &str, tag: usize) 
     CaseOut { probes, viol, sig }
 }
 
+/// `--replay <file>`: rebuild the recorded case and run it twice (must agree) without the enumeration.
+fn replay(path: &str, prop: &str) -> ! {
+    let body: Value = serde_json::from_str(&std::fs::read_to_string(path).unwrap_or_default()).unwrap_or(Value::Null);
+    let rp = &body["replay"];
+    let phase = match rp["phase"].as_str() {
+        Some("C") => Phase::C,
+        Some("D") => Phase::D,
+        _ => Phase::A,
+    };
+    let case = Arc::new(Case {
+        snap: rp["snapshot"].clone(),
+        path: rp["path"].as_array().map(|a| a.iter().map(|x| x.as_str().unwrap_or("").to_string()).collect()).unwrap_or_default(),
+        counts: rp["counts"].as_array().map(|a| a.iter().map(|x| x.as_u64().unwrap_or(2) as usize).collect()).unwrap_or_else(|| vec![2, 2, 2]),
+        limit: rp["limit"].as_u64().unwrap_or(0),
+        compress: rp["compress"].as_bool().unwrap_or(false),
+        phase,
+        version: if rp["nodes_version"].as_str() == Some("V1") { ClusterNodesVersion::V1 } else { ClusterNodesVersion::V2 },
+        all_slots: rp["all_slots"].as_bool().unwrap_or(false),
+        walk: rp["walk"].as_bool().unwrap_or(false),
+    });
+    let keys = Arc::new(slot_keys());
+    let tag = rp["case"].as_u64().unwrap_or(0) as usize;
+    let run = || {
+        let (c2, k2, p2) = (case.clone(), keys.clone(), prop.to_string());
+        match vh::det::on_fresh_thread(tag as u64 + 1, 32 << 20, move || run_sim(run_case(&c2, k2, &p2, tag))) {
+            Ok(o) => o.viol,
+            Err(_) => vec![("case-panicked".to_string(), "the case panicked".to_string())],
+        }
+    };
+    let (a, b) = (run(), run());
+    if a != b {
+        machinery_error("replay is not deterministic");
+    }
+    if a.is_empty() {
+        println!("replay: no violation in this case");
+        std::process::exit(0);
+    }
+    for (k, d) in a.iter().take(5) {
+        println!("replay: {} {}", k, d);
+    }
+    println!("VIOLATION property={} replay={}", prop, path);
+    std::process::exit(1);
+}
+
 pub fn run(cli: &Cli, prop: &str) -> (Value, Vec<Violation>) {
+    if let Some(p) = &cli.replay {
+        replay(p, prop);
+    }
     let thorough = cli.thorough();
     let keys = Arc::new(slot_keys());
     let counts = vec![2usize, 2, 2];
@@ -508,7 +555,7 @@ pub fn run(cli: &Cli, prop: &str) -> (Value, Vec<Violation>) {
             *per_phase.entry(if cases[i].walk { "walk A->C->D".to_string() } else { format!("{:?}", cases[i].phase) }).or_default() += 1;
             for (k, d) in o.viol {
                 if viol.iter().filter(|v| v.key == k).count() < 1 {
-                    viol.push(Violation { key: k, desc: d, replay: json!({"case": i, "path": cases[i].path, "limit": cases[i].limit, "compress": cases[i].compress, "phase": format!("{:?}", cases[i].phase), "walk": cases[i].walk, "snapshot": cases[i].snap}) });
+                    viol.push(Violation { key: k, desc: d, replay: json!({"case": i, "path": cases[i].path, "limit": cases[i].limit, "compress": cases[i].compress, "phase": format!("{:?}", cases[i].phase), "walk": cases[i].walk, "nodes_version": format!("{:?}", cases[i].version), "all_slots": cases[i].all_slots, "counts": cases[i].counts, "snapshot": cases[i].snap}) });
                 }
             }
         }
